@@ -44,6 +44,12 @@ def check(run, repo, tier):
   r6_enum(run, w, repo)
 
 
+def _within(t, container):
+  """Test expression t (possibly a synthesised conjunction) belongs to `container`'s subtree."""
+  ids = {id(x) for x in ast.walk(container) if isinstance(x, ast.expr)}
+  return any(id(y) in ids for y in ast.walk(t) if isinstance(y, ast.expr))
+
+
 def _gtexts(guards):
   return sorted((text(t), p) for (t, p) in guards)
 
@@ -114,8 +120,7 @@ def r1_dependencies(run, w):
         loop = s
     ok = loop is not None and rec is not None and text(loop.iter) == rec + ".recalcDeps" and \
         isinstance(loop.target, ast.Name)
-    inner = [(text(t), p) for (t, p) in g if loop is not None and
-             any(x is t for x in ast.walk(loop))]
+    inner = [(text(t), p) for (t, p) in g if loop is not None and _within(t, loop)]
     ok = ok and all(p is True and isinstance(tt, str) and " not in " in tt for (tt, p) in inner)
     run.ob(R1, fn.qualname, "for dc in col_rec.recalcDeps: add_edge", "every column listed in "
            "recalcDeps gets an edge", ok, witness=repr(inner) if inner else None, fi=fn.fi,
@@ -143,7 +148,7 @@ def r1_dependencies(run, w):
   clears = [(n, c) for (n, c, nm) in fn.calls() if nm == "self.dep_graph.clear_dependencies"]
   (cn, cc) = _single(clears, "_maybe_update_trigger_dependencies: clear_dependencies")
   g = H.guards_of(fn.node, _stmt_of(fn.node, cc))
-  filt = [(t, p) for (t, p) in g if any(x is t for x in ast.walk(cl))]
+  filt = [(t, p) for (t, p) in g if _within(t, cl)]
   ok = len(filt) == 1 and filt[0][1] is False and _data_col_with_formula_skip(filt[0][0], col_obj)
   run.ob(R1, fn.qualname, "if %s.is_formula() or not %s.has_formula(): continue" % (col_obj,
                                                                                    col_obj),
@@ -222,17 +227,18 @@ def r2_new_records(run, w):
   for s in walk_no_nested(fn.node):
     if isinstance(s, ast.For) and any(x is ac for x in ast.walk(s)):
       loop = s
-  ok = loop is not None and endswith(text(loop.iter), "all_columns") and \
+  ok = loop is not None and isinstance(loop.iter, ast.Attribute) and \
+      loop.iter.attr == "all_columns" and isinstance(loop.iter.value, ast.Name) and \
       text(ac.args[0]) == text(loop.target)
-  trs = flow.roots(loop.iter.value, flow.node_of(loop.iter)) if ok else []
-  ok = ok and bool(trs) and all(r.kind == "param" and r.node == "self" and
-                                r.path[-1] == ("elem",) and text(_sub(fn, r)) == p_table
-                                for r in trs) if ok else False
+  if ok:
+    tdefs = E.local_defs(fn.node, loop.iter.value.id)
+    ok = len(tdefs) == 1 and isinstance(tdefs[0], ast.Subscript) and \
+        endswith(dotted(tdefs[0].value), "_engine.tables") and text(tdefs[0].slice) == p_table
   run.ob(R2, fn.qualname, "for col_id in table.all_columns: %s.add(col_id)" % RC,
          "every column of the table the records are added to is a candidate for recalculation",
          ok, fi=fn.fi, node=loop or ic)
   g = H.guards_of(fn.node, _stmt_of(fn.node, ac))
-  g = [(t, p) for (t, p) in g if loop is not None and any(x is t for x in ast.walk(loop))]
+  g = [(t, p) for (t, p) in g if loop is not None and _within(t, loop)]
   cv = text(loop.target) if loop is not None else "?"
   supplied = [x for x in g if x[1] is False and isinstance(x[0], ast.Compare) and
               isinstance(x[0].ops[0], ast.In) and text(x[0].left) == cv and
@@ -293,14 +299,6 @@ def r2_new_records(run, w):
          "for it", ok, fi=ic2.fi)
 
 
-def _sub(fn, r):
-  """The subscript expression `self._engine.tables[<x>]` behind a root ending in ('elem',)."""
-  for s in walk_no_nested(fn.node):
-    if isinstance(s, ast.Subscript) and endswith(dotted(s.value), "tables"):
-      return s.slice
-  return ast.Constant(value=None)
-
-
 # --------------------------------------------------------------------------------------- R3
 
 MAP = "_prevent_recompute_map"
@@ -310,7 +308,7 @@ READ_METHODS = ("get", "items", "keys", "values", "__contains__", "copy")
 def r3_exemptions(run, w):
   R3 = run.rule("C15-R3", "explicit values are exempted by the doc action; the exemption map is "
                 "written only by prevent_recalc, cleared per user action, and only read by "
-                "_recompute_step, which subtracts it without mutation", floor=9)
+                "_recompute_step, which subtracts it without mutation", floor=8)
   # doc action
   fn = w.fn("docactions.DocActions.BulkUpdateRecord")
   ps = fn.fi.params()
@@ -517,7 +515,9 @@ def r4_manual_updates(run, w):
       b[ips[3]].value is True
   run.ob(R4, fn.qualname, "invalidate_column(%s, ..., recompute_data_col=True)" % col_obj,
          "the data column itself is scheduled for recalculation", ok, fi=fn.fi, node=ic)
-  g = H.guards_of(fn.node, _stmt_of(fn.node, ic))
+  top = [s for s in fn.node.body if any(x is ic for x in ast.walk(s))][0]
+  # (earlier top-level early exits reject the whole user action and are not of interest here)
+  g = [(t, p) for (t, p) in H.guards_of(fn.node, _stmt_of(fn.node, ic)) if _within(t, top)]
   nonempty = []
   filt = []
   manual = []
